@@ -6,6 +6,7 @@ import (
 	"crypto/sha1"
 	"fmt"
 	"io"
+	"os"
 	"sort"
 	"strings"
 	"sync"
@@ -254,23 +255,32 @@ func (p *pair) entryList(es []*core.Entry) string {
 // client/server protocol (R), and records what both return and what the wire
 // carried.
 type pair struct {
-	L, R   synchronization.Endpoint
-	obs    *observer
-	tbl    *table
-	out    []string
-	tags   []string
-	normL  func(string) string
-	normR  func(string) string
-	dead   bool // the session ended (an operation failed in a way that ends it)
-	ro     bool // the endpoints are read-only
+	L, R  synchronization.Endpoint
+	obs   *observer
+	tbl   *table
+	out   []string
+	tags  []string
+	normL func(string) string
+	normR func(string) string
+	dead  bool // the session ended (an operation failed in a way that ends it)
+	ro    bool // the endpoints are read-only
 	// quiesce waits until the server has consumed everything sent so far
 	quiesce func()
-	engine *rsync.Engine
+	engine  *rsync.Engine
 	// statistics for the non-triviality rule
 	nScanOk, nScanErr, nNilContent, nStageAll, nStageNone, nStagePart, nTransOk, nMissing, nBlockOps int
 }
 
 func (p *pair) tag(s string) { p.tags = append(p.tags, s) }
+
+// noteDiff is a development aid (VERIF_DEBUG): it reports outputs whose
+// printed forms differ although neither is an error. The verdict itself is
+// computed in Coq.
+func (p *pair) noteDiff(op, loc, rem string) {
+	if os.Getenv("VERIF_DEBUG") != "" && loc != rem && !strings.Contains(loc, "Err ") && !strings.Contains(rem, "Err ") {
+		fmt.Fprintln(os.Stderr, "DIFF", op, loc, "<>", rem)
+	}
+}
 
 func (p *pair) problems(ps []*core.Problem, norm func(string) string) string {
 	items := make([]string, len(ps))
@@ -325,6 +335,7 @@ func (p *pair) scan(ancestor *core.Entry, full bool) (*core.Snapshot, error) {
 	sr, er, tr := p.R.Scan(context.Background(), ancestor, full)
 	loc := p.scanOut(sl, el, tl, p.normL, false)
 	rem := p.scanOut(sr, er, tr, p.normR, true)
+	p.noteDiff("scan", loc, rem)
 
 	// wire: request (+ completion request), response
 	req := &remote.EndpointRequest{}
@@ -425,6 +436,7 @@ func (p *pair) stage(paths []string, digests [][]byte, feed feeder) (failed bool
 	pr, sr, rr, er := p.R.Stage(append([]string(nil), paths...), digests)
 	loc := p.stageOut(pl, sl, el, p.normL, false)
 	rem := p.stageOut(pr, sr, er, p.normR, true)
+	p.noteDiff("stage", loc, rem)
 	wresp := "None"
 	onWire := len(paths) == len(digests) && len(paths) > 0
 	if onWire {
@@ -507,6 +519,7 @@ func (p *pair) transition(changes []*core.Change) {
 	rr, pr, mr, er := p.R.Transition(context.Background(), cloneChanges(changes))
 	loc := p.transOut(rl, pl, ml, el, p.normL, false)
 	rem := p.transOut(rr, pr, mr, er, p.normR, true)
+	p.noteDiff("transition", loc, rem)
 	req := &remote.EndpointRequest{}
 	if err := p.obs.up.Decode(req); err != nil || req.Transition == nil {
 		panic(fmt.Sprintf("wire tap: no transition request on the wire (%v)", err))
@@ -597,6 +610,7 @@ func (p *pair) supply(paths []string, sigs []*rsync.Signature, dstL, dstR string
 	}
 	loc, _ := run(p.L, dstL)
 	rem, failedR := run(p.R, dstR)
+	p.noteDiff("supply", loc, rem)
 	req := &remote.EndpointRequest{}
 	if err := p.obs.up.Decode(req); err != nil || req.Supply == nil {
 		panic(fmt.Sprintf("wire tap: no supply request on the wire (%v)", err))
